@@ -13,7 +13,7 @@ git -C $wt apply $src/patch.diff || { echo "patch does not apply"; exit 3; }
 (cd $wt && PYTHONPATH=$wt timeout 600 /venv/bin/python $src/demo.py > /tmp/sc_demo_b_${pid}_$k.out 2>&1); b=$?
 suite=$(/verif/tools/suite.sh $wt 2>&1 | tail -2 | tr '\n' ' ')
 echo "demo_on_original=$a demo_with_change=$b suite: $suite"
-if [ $a -ne 0 ] || [ $b -eq 0 ] || ! echo "$suite" | grep -q "301/301"; then echo "NOT CONFIRMED"; tail -5 /tmp/sc_demo_a_${pid}_$k.out /tmp/sc_demo_b_${pid}_$k.out; exit 4; fi
+if [ $a -ne 0 ] || [ $b -eq 0 ] || ! echo "$suite" | grep -q "301/301"; then echo "NOT CONFIRMED"; tail -n 5 /tmp/sc_demo_b_${pid}_$k.out; exit 4; fi
 mkdir -p $dst; cp $src/patch.diff $src/demo.py $dst/; cp $src/notes.txt $dst/notes.txt 2>/dev/null
 echo "demo exits $a on HEAD, $b with the change; $suite" > $dst/confirmed.txt
 if [ -n "${CONFIRM_ONLY:-}" ]; then echo "CONFIRMED (detection not run)"; exit 0; fi
